@@ -43,6 +43,21 @@ def meshgridT3 {α} (xs ys zs : List α) : List (α × α × α) :=
 def rowsAnyNonzero3 (rows : List (Nat × Nat × Nat)) : List (Nat × Nat × Nat) :=
   rows.filter (fun m => m.1 != 0 || m.2.1 != 0 || m.2.2 != 0)
 
+/-- `v + rows` for a 3-vector and an (n, 3) array (numpy broadcasting): `v` added to every row -/
+def vecAddRows (v : Vec3) (rows : List Vec3) : List Vec3 := rows.map (fun o => Vec3.add v o)
+
+/-- the result of `distance.cdist(rows, [b], "euclidean")`, an (n, 1) array of distances, kept as the SQUARED distances
+    (no square root in the rational model); the translator gives it a type of its own so that nothing but `anyDistLt` reads it -/
+structure SqDists where
+  sq : List Rat
+
+/-- `distance.cdist(rows, [b], "euclidean")`: entry k is `‖rows[k] − b‖`, stored as `‖rows[k] − b‖²` -/
+def cdistSqCol (rows : List Vec3) (b : Vec3) : SqDists := ⟨rows.map (fun r => Vec3.normSq (Vec3.sub r b))⟩
+
+/-- `np.any(ss < c)` for such a column: some distance is STRICTLY below `c`.  For reals `d ≥ 0`: `d < c ⟺ 0 < c ∧ d² < c²`;
+    this is exactly that statement on the squares (no distance is below a cutoff `c ≤ 0`) -/
+def anyDistLt (ss : SqDists) (c : Rat) : Bool := decide (0 < c) && ss.sq.any (fun d => decide (d < c * c))
+
 end Mofun.Generated.Py6
 
 namespace Mofun.Generated.Code6
@@ -69,28 +84,28 @@ def delitem (positions : List Vec3) (atom_types : List Nat) (charges : List Rat)
   let sorted_indices : List Int := (Py.sortedDesc (dedup t7))
   if (List.length bonds) > 0 then
     let t8 ← (Py6.natList? sorted_indices)
-    let unpacked1 : (List (List Nat)) × (List Nat) := (deleteAndReindex bonds t8)
+    let unpacked1 : (List (List Nat)) × (List Nat) := (Code.deleteAndReindex bonds t8)
     let bonds' : List (List Nat) := unpacked1.1
     let arr_idx_to_delete : List Nat := unpacked1.2
     let bond_types' : List Nat := (Py.npDelete bond_types arr_idx_to_delete)
     let extra_bond_fields' : List (List String) := (Py.npDelete extra_bond_fields arr_idx_to_delete)
     if (List.length angles) > 0 then
       let t9 ← (Py6.natList? sorted_indices)
-      let unpacked2 : (List (List Nat)) × (List Nat) := (deleteAndReindex angles t9)
+      let unpacked2 : (List (List Nat)) × (List Nat) := (Code.deleteAndReindex angles t9)
       let angles' : List (List Nat) := unpacked2.1
       let arr_idx_to_delete : List Nat := unpacked2.2
       let angle_types' : List Nat := (Py.npDelete angle_types arr_idx_to_delete)
       let extra_angle_fields' : List (List String) := (Py.npDelete extra_angle_fields arr_idx_to_delete)
       if (List.length dihedrals) > 0 then
         let t10 ← (Py6.natList? sorted_indices)
-        let unpacked3 : (List (List Nat)) × (List Nat) := (deleteAndReindex dihedrals t10)
+        let unpacked3 : (List (List Nat)) × (List Nat) := (Code.deleteAndReindex dihedrals t10)
         let dihedrals' : List (List Nat) := unpacked3.1
         let arr_idx_to_delete : List Nat := unpacked3.2
         let dihedral_types' : List Nat := (Py.npDelete dihedral_types arr_idx_to_delete)
         let extra_dihedral_fields' : List (List String) := (Py.npDelete extra_dihedral_fields arr_idx_to_delete)
         if (List.length impropers) > 0 then
           let t11 ← (Py6.natList? sorted_indices)
-          let unpacked4 : (List (List Nat)) × (List Nat) := (deleteAndReindex impropers t11)
+          let unpacked4 : (List (List Nat)) × (List Nat) := (Code.deleteAndReindex impropers t11)
           let impropers' : List (List Nat) := unpacked4.1
           let arr_idx_to_delete : List Nat := unpacked4.2
           let improper_types' : List Nat := (Py.npDelete improper_types arr_idx_to_delete)
@@ -100,7 +115,7 @@ def delitem (positions : List Vec3) (atom_types : List Nat) (charges : List Rat)
           pure ((), positions', atom_types', charges', groups', extra_atom_fields', bonds', bond_types', extra_bond_fields', angles', angle_types', extra_angle_fields', dihedrals', dihedral_types', extra_dihedral_fields', impropers, improper_types, extra_improper_fields)
       else if (List.length impropers) > 0 then
         let t12 ← (Py6.natList? sorted_indices)
-        let unpacked5 : (List (List Nat)) × (List Nat) := (deleteAndReindex impropers t12)
+        let unpacked5 : (List (List Nat)) × (List Nat) := (Code.deleteAndReindex impropers t12)
         let impropers' : List (List Nat) := unpacked5.1
         let arr_idx_to_delete : List Nat := unpacked5.2
         let improper_types' : List Nat := (Py.npDelete improper_types arr_idx_to_delete)
@@ -110,14 +125,14 @@ def delitem (positions : List Vec3) (atom_types : List Nat) (charges : List Rat)
         pure ((), positions', atom_types', charges', groups', extra_atom_fields', bonds', bond_types', extra_bond_fields', angles', angle_types', extra_angle_fields', dihedrals, dihedral_types, extra_dihedral_fields, impropers, improper_types, extra_improper_fields)
     else if (List.length dihedrals) > 0 then
       let t13 ← (Py6.natList? sorted_indices)
-      let unpacked6 : (List (List Nat)) × (List Nat) := (deleteAndReindex dihedrals t13)
+      let unpacked6 : (List (List Nat)) × (List Nat) := (Code.deleteAndReindex dihedrals t13)
       let dihedrals' : List (List Nat) := unpacked6.1
       let arr_idx_to_delete : List Nat := unpacked6.2
       let dihedral_types' : List Nat := (Py.npDelete dihedral_types arr_idx_to_delete)
       let extra_dihedral_fields' : List (List String) := (Py.npDelete extra_dihedral_fields arr_idx_to_delete)
       if (List.length impropers) > 0 then
         let t14 ← (Py6.natList? sorted_indices)
-        let unpacked7 : (List (List Nat)) × (List Nat) := (deleteAndReindex impropers t14)
+        let unpacked7 : (List (List Nat)) × (List Nat) := (Code.deleteAndReindex impropers t14)
         let impropers' : List (List Nat) := unpacked7.1
         let arr_idx_to_delete : List Nat := unpacked7.2
         let improper_types' : List Nat := (Py.npDelete improper_types arr_idx_to_delete)
@@ -127,7 +142,7 @@ def delitem (positions : List Vec3) (atom_types : List Nat) (charges : List Rat)
         pure ((), positions', atom_types', charges', groups', extra_atom_fields', bonds', bond_types', extra_bond_fields', angles, angle_types, extra_angle_fields, dihedrals', dihedral_types', extra_dihedral_fields', impropers, improper_types, extra_improper_fields)
     else if (List.length impropers) > 0 then
       let t15 ← (Py6.natList? sorted_indices)
-      let unpacked8 : (List (List Nat)) × (List Nat) := (deleteAndReindex impropers t15)
+      let unpacked8 : (List (List Nat)) × (List Nat) := (Code.deleteAndReindex impropers t15)
       let impropers' : List (List Nat) := unpacked8.1
       let arr_idx_to_delete : List Nat := unpacked8.2
       let improper_types' : List Nat := (Py.npDelete improper_types arr_idx_to_delete)
@@ -137,21 +152,21 @@ def delitem (positions : List Vec3) (atom_types : List Nat) (charges : List Rat)
       pure ((), positions', atom_types', charges', groups', extra_atom_fields', bonds', bond_types', extra_bond_fields', angles, angle_types, extra_angle_fields, dihedrals, dihedral_types, extra_dihedral_fields, impropers, improper_types, extra_improper_fields)
   else if (List.length angles) > 0 then
     let t16 ← (Py6.natList? sorted_indices)
-    let unpacked9 : (List (List Nat)) × (List Nat) := (deleteAndReindex angles t16)
+    let unpacked9 : (List (List Nat)) × (List Nat) := (Code.deleteAndReindex angles t16)
     let angles' : List (List Nat) := unpacked9.1
     let arr_idx_to_delete : List Nat := unpacked9.2
     let angle_types' : List Nat := (Py.npDelete angle_types arr_idx_to_delete)
     let extra_angle_fields' : List (List String) := (Py.npDelete extra_angle_fields arr_idx_to_delete)
     if (List.length dihedrals) > 0 then
       let t17 ← (Py6.natList? sorted_indices)
-      let unpacked10 : (List (List Nat)) × (List Nat) := (deleteAndReindex dihedrals t17)
+      let unpacked10 : (List (List Nat)) × (List Nat) := (Code.deleteAndReindex dihedrals t17)
       let dihedrals' : List (List Nat) := unpacked10.1
       let arr_idx_to_delete : List Nat := unpacked10.2
       let dihedral_types' : List Nat := (Py.npDelete dihedral_types arr_idx_to_delete)
       let extra_dihedral_fields' : List (List String) := (Py.npDelete extra_dihedral_fields arr_idx_to_delete)
       if (List.length impropers) > 0 then
         let t18 ← (Py6.natList? sorted_indices)
-        let unpacked11 : (List (List Nat)) × (List Nat) := (deleteAndReindex impropers t18)
+        let unpacked11 : (List (List Nat)) × (List Nat) := (Code.deleteAndReindex impropers t18)
         let impropers' : List (List Nat) := unpacked11.1
         let arr_idx_to_delete : List Nat := unpacked11.2
         let improper_types' : List Nat := (Py.npDelete improper_types arr_idx_to_delete)
@@ -161,7 +176,7 @@ def delitem (positions : List Vec3) (atom_types : List Nat) (charges : List Rat)
         pure ((), positions', atom_types', charges', groups', extra_atom_fields', bonds, bond_types, extra_bond_fields, angles', angle_types', extra_angle_fields', dihedrals', dihedral_types', extra_dihedral_fields', impropers, improper_types, extra_improper_fields)
     else if (List.length impropers) > 0 then
       let t19 ← (Py6.natList? sorted_indices)
-      let unpacked12 : (List (List Nat)) × (List Nat) := (deleteAndReindex impropers t19)
+      let unpacked12 : (List (List Nat)) × (List Nat) := (Code.deleteAndReindex impropers t19)
       let impropers' : List (List Nat) := unpacked12.1
       let arr_idx_to_delete : List Nat := unpacked12.2
       let improper_types' : List Nat := (Py.npDelete improper_types arr_idx_to_delete)
@@ -171,14 +186,14 @@ def delitem (positions : List Vec3) (atom_types : List Nat) (charges : List Rat)
       pure ((), positions', atom_types', charges', groups', extra_atom_fields', bonds, bond_types, extra_bond_fields, angles', angle_types', extra_angle_fields', dihedrals, dihedral_types, extra_dihedral_fields, impropers, improper_types, extra_improper_fields)
   else if (List.length dihedrals) > 0 then
     let t20 ← (Py6.natList? sorted_indices)
-    let unpacked13 : (List (List Nat)) × (List Nat) := (deleteAndReindex dihedrals t20)
+    let unpacked13 : (List (List Nat)) × (List Nat) := (Code.deleteAndReindex dihedrals t20)
     let dihedrals' : List (List Nat) := unpacked13.1
     let arr_idx_to_delete : List Nat := unpacked13.2
     let dihedral_types' : List Nat := (Py.npDelete dihedral_types arr_idx_to_delete)
     let extra_dihedral_fields' : List (List String) := (Py.npDelete extra_dihedral_fields arr_idx_to_delete)
     if (List.length impropers) > 0 then
       let t21 ← (Py6.natList? sorted_indices)
-      let unpacked14 : (List (List Nat)) × (List Nat) := (deleteAndReindex impropers t21)
+      let unpacked14 : (List (List Nat)) × (List Nat) := (Code.deleteAndReindex impropers t21)
       let impropers' : List (List Nat) := unpacked14.1
       let arr_idx_to_delete : List Nat := unpacked14.2
       let improper_types' : List Nat := (Py.npDelete improper_types arr_idx_to_delete)
@@ -188,7 +203,7 @@ def delitem (positions : List Vec3) (atom_types : List Nat) (charges : List Rat)
       pure ((), positions', atom_types', charges', groups', extra_atom_fields', bonds, bond_types, extra_bond_fields, angles, angle_types, extra_angle_fields, dihedrals', dihedral_types', extra_dihedral_fields', impropers, improper_types, extra_improper_fields)
   else if (List.length impropers) > 0 then
     let t22 ← (Py6.natList? sorted_indices)
-    let unpacked15 : (List (List Nat)) × (List Nat) := (deleteAndReindex impropers t22)
+    let unpacked15 : (List (List Nat)) × (List Nat) := (Code.deleteAndReindex impropers t22)
     let impropers' : List (List Nat) := unpacked15.1
     let arr_idx_to_delete : List Nat := unpacked15.2
     let improper_types' : List Nat := (Py.npDelete improper_types arr_idx_to_delete)
@@ -227,5 +242,49 @@ def replicateOffsets_default_repldims : Nat × Nat × Nat := (1, 1, 1)
 /-- translated from `replicate` in mofun/atoms.py class Atoms (FRAGMENT: the `offsets=` keyword of the `repl_atoms.extend` call of every image) -/
 def replicateOffsets : Nat × Nat × Nat × Nat × Nat :=
   (0, 0, 0, 0, 0)
+
+/-- translated from `detect_bonds` in mofun/detect_bonds.py: the rows `[idx1, idx2]` in the order they are appended; `cdist` + `np.any(ss < cutoff)` is the sqrt-free comparison `0 < cutoff ∧ ‖image − atom2‖² < cutoff²` (Py6.cdistSqCol / Py6.anyDistLt); `none` = KeyError of max_bond_length / IndexError -/
+def detectBonds (structure_elements : List String) (structure_positions : List Vec3) (structure_cell : Option Mat3) : Option (List (List Nat)) := do
+  let elements : List String := structure_elements
+  match structure_cell with
+  | some structure_cell =>
+    let uc_offsets : List Vec3 := (Code.ucNeighborOffsets structure_cell)
+    let bonds : List (List Nat) := []
+    let bonds ← Py.forFoldM? (Py.enumerate structure_positions) bonds (fun bonds (idx1, atom1) => do
+        let atom1_positions : List Vec3 := (Py6.vecAddRows atom1 uc_offsets)
+        let bonds ← Py.forFoldM? (Py.enumerate (List.drop (idx1 + 1) structure_positions)) bonds (fun bonds (i, atom2) => do
+            let idx2 : Nat := ((i + idx1) + 1)
+            let ss : Py6.SqDists := (Py6.cdistSqCol atom1_positions atom2)
+            let t1 ← (elements[idx1]?)
+            let t2 ← (elements[idx2]?)
+            let t3 ← (Code.maxBondLength t1 t2)
+            if (Py6.anyDistLt ss t3) then
+              let bonds : List (List Nat) := (bonds ++ [[idx1, idx2]])
+              pure bonds
+            else
+              pure bonds
+            )
+        pure bonds
+        )
+    pure bonds
+  | none =>
+    let bonds : List (List Nat) := []
+    let bonds ← Py.forFoldM? (Py.enumerate structure_positions) bonds (fun bonds (idx1, atom1) => do
+        let atom1_positions : List Vec3 := (Py6.vecAddRows atom1 [(⟨(Dec.toRat ⟨0, 0⟩), (Dec.toRat ⟨0, 0⟩), (Dec.toRat ⟨0, 0⟩)⟩ : Vec3)])
+        let bonds ← Py.forFoldM? (Py.enumerate (List.drop (idx1 + 1) structure_positions)) bonds (fun bonds (i, atom2) => do
+            let idx2 : Nat := ((i + idx1) + 1)
+            let ss : Py6.SqDists := (Py6.cdistSqCol atom1_positions atom2)
+            let t4 ← (elements[idx1]?)
+            let t5 ← (elements[idx2]?)
+            let t6 ← (Code.maxBondLength t4 t5)
+            if (Py6.anyDistLt ss t6) then
+              let bonds : List (List Nat) := (bonds ++ [[idx1, idx2]])
+              pure bonds
+            else
+              pure bonds
+            )
+        pure bonds
+        )
+    pure bonds
 
 end Mofun.Generated.Code6
